@@ -29,12 +29,26 @@ BY_FILE = [          # touched file -> the checks that read it most directly (ow
 WIDE = os.environ.get('SEED_WIDE')          # second pass for seeds the first pass missed: every property not yet run
 
 
+SECOND = [          # second pass (seeds the first pass missed): the remaining checks that read the touched file
+    (r'solvers/', ['C19', 'C03', 'C17', 'C20', 'C02', 'C16', 'C13', 'C05', 'C18']),
+    (r'penalties/|utils/prox_funcs', ['C04', 'C02', 'C14', 'C15', 'C16', 'C19', 'C20']),
+    (r'datafits/|utils/sparse_ops', ['C10', 'C19', 'C14', 'C15', 'C20', 'C02', 'C06']),
+    (r'estimators|experimental/', ['C11', 'C12', 'C14', 'C16', 'C13', 'C02']),
+    (r'utils/', ['C11', 'C16', 'C01']),
+]
+
+
 def props_for(name):
     own = name.split('-')[0]
     if WIDE:
         done = json.load(open(os.path.join(out, name + '.json')))
         files = done.get('files', [])
-        return [f'C{k:02d}' for k in range(1, 21) if f'C{k:02d}' not in done], files
+        second = []
+        for f in files:
+            for pat, lst in SECOND:
+                if re.search(pat, f):
+                    second += [p for p in lst if p not in second and p not in done]
+        return second, files
     patch = open(f'/verif/seeded/{name}/patch.diff').read()
     files = re.findall(r'^\+\+\+ b/(\S+)', patch, re.M)
     ps = [own]
